@@ -11,7 +11,7 @@ from props.common import *
 from props.actor_steps import actor_fields, tracker_parts, notified
 from props.C16 import default_reply, mutating
 
-OUTSIDE = ['when the Weak<Topic> actually dies (reference counting across tasks)',
+OUTSIDE = ['when the Weak<Topic> actually dies (reference counting across tasks): the histories C11.g state "the last handle is gone" as a step',
            '"at every quiescent moment ListTopicSubscriptions equals the live set" as a whole (composition of C11.a, C11.c, C01.e under A1)']
 ASSUMPTIONS = ['A1: one request at a time per actor']
 
